@@ -36,6 +36,21 @@ def _inputs(rng, tier):
         yield {"op": "fsdiff", "a": a, "b": b, "ign": k % 2}
     yield {"op": "fsdiff", "a": [], "b": [], "ign": 0}
     yield {"op": "fsdiff", "a": [[[[97] * 120, list(fmtlib.PLAIN)]]], "b": [[[[97] * 7, list(fmtlib.RED)]]], "ign": 0}
+    # fseq: the two assertion helpers and simple_format on pairs that are equal, differ in text, in formatting only, in
+    # height, or only in the declared width
+    for k in range(600 * n):
+        a = [r for r in arr() if True] or [[rng.choice(runs)]]
+        b = [list(r) for r in a]
+        how = k % 6
+        if how == 1 and b:
+            b[rng.randrange(len(b))] = [rng.choice(runs)]
+        elif how == 2 and b and b[0]:
+            b[0] = [[list(b[0][0][0]), list(rng.choice(ATTS))]] + b[0][1:]
+        elif how == 3:
+            b = b + [[rng.choice(runs)]]
+        elif how == 4 and b and b[-1]:
+            b[-1] = b[-1][:-1] + [[list(b[-1][-1][0][:1]), list(b[-1][-1][1])], [list(b[-1][-1][0][1:]), list(b[-1][-1][1])]]   # other run boundaries
+        yield {"op": "fseq", "a": a, "b": b, "ign": k % 2, "wider": int(how == 5)}
     # ppevent: every name of both tables, and other text
     yield {"op": "ppevent", "names": "tables"}
     for t in ("abc", "", "\x1b", "<F99>", "KEY_NOPE", "<Ctrl-j>", "a", "é", "'", '"', "\\"):
@@ -69,6 +84,21 @@ def _execute(inp):
             ev["res"] = {"k": "ok", "t": "", "s": enc.enc_text(s)}
         except Exception as e:  # noqa
             ev["res"] = {"k": "exc", "t": enc.exc_name(e), "s": []}
+        return [ev]
+    if op == "fseq":
+        from curtsies.formatstringarray import assertFSArraysEqual, assertFSArraysEqualIgnoringFormatting, simple_format
+        ra = [enc.build_fmtstr(r) for r in inp["a"]]
+        rb = [enc.build_fmtstr(r) for r in inp["b"]]
+        a = fsarray(ra)
+        b = fsarray(rb, width=max([len(r) for r in rb] + [0]) + 2) if inp["wider"] else fsarray(rb)
+        ev["wa"], ev["wb"] = a.width, b.width
+        ev["a"], ev["b"] = [enc.enc_fmtstr(r) for r in a.rows], [enc.enc_fmtstr(r) for r in b.rows]   # the arrays as built
+        try:
+            (assertFSArraysEqualIgnoringFormatting if inp["ign"] else assertFSArraysEqual)(a, b)
+            ev["res"] = {"k": "ok", "t": ""}
+        except Exception as e:  # noqa
+            ev["res"] = {"k": "exc", "t": enc.exc_name(e)}
+        ev["fmt"] = enc.enc_text(simple_format(a))
         return [ev]
     curses, curtsies = _tables()
     if "names" in inp:
